@@ -43,6 +43,7 @@ def verify(prop, k):
     rc, out = sh(f"/var/tmp/run_baseline.sh {wt}")
     res["baseline"] = out.strip().splitlines()[0] if out.strip() else ""
     res["baseline_ok"] = rc == 0
+    os.makedirs(os.path.dirname(dst), exist_ok=True)
     shutil.copyfile(src, dst)
     rc, out = sh(t, cwd=cwd, timeout=600)
     res["demo_with_change_fails"] = rc != 0
